@@ -43,6 +43,42 @@ STRINGS = ["a", "b", "1", "$C17VAR", "${C17VAR}", "$HOME/x", "${PATH}", "$$", "%
            "1e3", "007", "", " ", " lead", "trail ", "#c", "a #c", "a: b", "- a", "!t", "*a", "&a", "[1]", "{a: 1}", "é", "\\n", "'q'", '"q"', "@x", "`x`", "a\tb"]
 
 
+def merge_key_text(entries, rng):
+    """the same top-level entries written the way hand-maintained configuration files are: an entry as an anchored mapping,
+    a later entry of the same class as `<<: *anchor` plus the keys that differ - the merge key first, last, or as a list of
+    two anchors.  YAML's rule: the entry's own keys win over merged ones, earlier mappings of a merge list over later ones.
+    Returns the text, or None when no two device entries share a class (PyYAML's standard loader must agree with `entries`)."""
+    import yaml
+    devs = [i for i, e in enumerate(entries) if "components" not in e]
+    pairs = [(i, j) for i in devs for j in devs if i < j and entries[i]["type"] == entries[j]["type"]]
+    if not pairs:
+        return None
+    bi, ei = rng.choice(pairs)
+    third = [k for k in devs if k < ei and k != bi and entries[k]["type"] == entries[bi]["type"]]
+    form = rng.choice(("first", "last", "list") if third else ("first", "last"))
+    out = []
+    for i, e in enumerate(entries):
+        body = yaml.safe_dump([e], default_flow_style=False)
+        if i == bi or (form == "list" and i == third[0]):
+            body = "- &anc%d\n  " % i + body[2:]
+        elif i == ei:
+            b = entries[bi]
+            own = {k: v for k, v in e.items() if k not in b or b[k] != v}
+            own_txt = yaml.safe_dump(own, default_flow_style=False) if own else ""
+            own_lines = ["  " + l for l in own_txt.splitlines()]
+            merge = "<<: *anc%d" % bi if form != "list" else "<<: [*anc%d, *anc%d]" % (bi, third[0])
+            lines = ([merge] + [l[2:] for l in own_lines]) if form != "last" else ([l[2:] for l in own_lines] + [merge])
+            body = "- " + lines[0] + "\n" + "".join("  " + l + "\n" for l in lines[1:])
+        out.append(body)
+    text = "".join(out)
+    try:
+        if yaml.load(text, Loader=yaml.Loader) != entries:
+            return None
+    except Exception:   # noqa: BLE001
+        return None
+    return text
+
+
 def gen_spec(rng, n_classes, order, unknown=False):
     sig_a = [["x", "int"]]
     sig_b = [["x", "int"], ["label", "str"]]
@@ -125,7 +161,12 @@ def gen_spec(rng, n_classes, order, unknown=False):
     tops = [str(e["name"]) for e in top]
     sels = [None, tops[:1], tops[::2], tops + ["ghost"], []]
     imp = [f"gm{i}" for i in order if f"gm{i}" in modules]
-    return {"modules": modules, "import_first": imp, "entries": top, "selections": sels}, classes
+    spec = {"modules": modules, "import_first": imp, "entries": top, "selections": sels}
+    if not unknown and rng.random() < 0.4:
+        txt = merge_key_text(top, rng)
+        if txt:
+            spec["raw_yaml"] = txt
+    return spec, classes
 
 
 def expected_desc(e):
@@ -165,6 +206,8 @@ def run(tier, seed, drv):
         case = {"spec": spec}
         res.case(json.dumps(spec, sort_keys=True), nontrivial=True, sample={"entries": spec["entries"][:2], "import_first": spec["import_first"]} if len(res.samples) < 2 else None)
         res.count("unknown-tag" if unknown else "valid")
+        if spec.get("raw_yaml"):
+            res.count("written-with-anchors-and-merge-keys")
         res.count("import_order=" + ",".join(spec["import_first"]))
         if out.get("errors"):
             res.violate(V("worker-error", out["errors"][0][-300:], site="worker"), case)
